@@ -94,6 +94,14 @@ Qed.
 Lemma zmem_false : forall x l, zmem x l = false <-> ~ In x l.
 Proof. intros. rewrite <- zmem_spec. destruct (zmem x l); split; intro H; try congruence; exfalso; auto. Qed.
 
+Lemma NoDup_app_one : forall {A} (l : list A) x, NoDup l -> ~ In x l -> NoDup (l ++ [x]).
+Proof.
+  induction l as [|a l IH]; intros x Hn Hx; cbn; [constructor; [tauto|constructor]|].
+  inversion Hn as [|? ? Ha Hl]; subst. constructor.
+  - intro H. apply in_app_or in H as [H|[H|[]]]; [tauto|subst; apply Hx; left; reflexivity].
+  - apply IH; [assumption|]. intro H. apply Hx. right; assumption.
+Qed.
+
 Lemma fold_add_whitelist : forall ws p, bl p = [] -> NoDup (wl p ++ ws) ->
   fold_left add_whitelist ws p = mkPerms (wl p ++ ws) [].
 Proof.
@@ -107,8 +115,32 @@ Proof.
     rewrite <- app_assoc. cbn. exact Hn.
 Qed.
 
-Lemma import_perms_nodup : forall p, NoDup (wl p) -> import_perms p = mkPerms (wl p) [].
+Lemma fold_add_blacklist : forall bs q, NoDup (bl q ++ bs) -> (forall x, In x bs -> ~ In x (wl q)) ->
+  fold_left add_blacklist bs q = mkPerms (wl q) (bl q ++ bs).
+Proof.
+  induction bs as [|b bs IH]; intros q Hn Hd; cbn.
+  - rewrite app_nil_r. destruct q; reflexivity.
+  - assert (Hb : ~ In b (bl q)).
+    { intro Hin. apply NoDup_remove_2 in Hn. apply Hn. apply in_or_app; left; assumption. }
+    assert (Hw : ~ In b (wl q)) by (apply Hd; left; reflexivity).
+    unfold add_blacklist at 2. apply zmem_false in Hb. apply zmem_false in Hw. rewrite Hb, Hw. cbn [orb].
+    rewrite IH; cbn [wl bl]; [rewrite <- app_assoc; reflexivity| |].
+    + rewrite <- app_assoc. cbn. exact Hn.
+    + intros x Hx. apply Hd. right; assumption.
+Qed.
+
+Definition perm_ok (p : perms) : Prop := NoDup (wl p) /\ NoDup (bl p) /\ (forall x, In x (wl p) -> ~ In x (bl p)).
+
+Lemma import_perms_false : forall p, NoDup (wl p) -> import_perms false p = mkPerms (wl p) [].
 Proof. intros p H. unfold import_perms. rewrite fold_add_whitelist; cbn; auto. Qed.
+Lemma import_perms_true : forall p, perm_ok p -> import_perms true p = p.
+Proof.
+  intros p (Hw & Hb & Hd). unfold import_perms. rewrite fold_add_whitelist by (cbn; auto). cbn [app wl].
+  rewrite fold_add_blacklist; cbn [wl bl app].
+  - destruct p; reflexivity.
+  - exact Hb.
+  - intros x Hx Hin. exact (Hd x Hin Hx).
+Qed.
 
 Lemma lookup_perms_in : forall l id p, NoDup (map fst l) -> In (id, p) l -> lookup_perms id l = Some p.
 Proof.
@@ -119,30 +151,37 @@ Proof.
     apply Z.eqb_eq in E; subst. exfalso. apply H1. change id with (fst (id, p)). apply in_map; assumption.
 Qed.
 
-(* what the re-import makes of a reachable role state: everything is restored except that EVERY
-   role blacklist is empty afterwards *)
+(* what the re-import makes of a reachable role state.  Without the blacklist loop (unrepaired tree)
+   everything is restored except that EVERY role blacklist is empty afterwards; with it, everything. *)
 Definition drop_blacklists (l : list (Z * perms)) : list (Z * perms) := map (fun e => (fst e, mkPerms (wl (snd e)) [])) l.
 
-Lemma reimport_registry : forall s, roles_wf s -> registry (reimport_roles s) = drop_blacklists (registry s).
+Lemma reimport_registry : forall blk s, roles_wf s ->
+  registry (reimport_roles blk s) = if blk then registry s else drop_blacklists (registry s).
 Proof.
-  intros s (Hi & Hn & Hw & _). unfold reimport_roles, import_roles, export_roles; cbn.
-  rewrite Hi. rewrite map_map. unfold drop_blacklists. apply map_ext_in.
-  intros [id p] Hin. cbn. rewrite (lookup_perms_in _ _ _ Hn Hin).
-  rewrite import_perms_nodup; [reflexivity|]. eapply Hw; eassumption.
+  intros blk s (Hi & Hn & Hw & _).
+  change (registry (reimport_roles blk s)) with
+    (map (fun id => (id, match lookup_perms id (registry s) with Some p => import_perms blk p | None => empty_perms end)) (infos s)).
+  rewrite Hi. rewrite map_map. destruct blk.
+  - rewrite <- (map_id (registry s)) at 2. apply map_ext_in.
+    intros [id p] Hin. cbn [fst]. rewrite (lookup_perms_in _ _ _ Hn Hin). rewrite import_perms_true; [reflexivity|]. eapply Hw; eassumption.
+  - unfold drop_blacklists. apply map_ext_in.
+    intros [id p] Hin. cbn [fst snd]. rewrite (lookup_perms_in _ _ _ Hn Hin).
+    rewrite import_perms_false; [reflexivity|]. eapply Hw; eassumption.
 Qed.
 
 Lemma index_drop_blacklists : forall l,
   flat_map (fun e => index_of_perms (fst e) (snd e)) (drop_blacklists l) = flat_map (fun e => index_of_perms (fst e) (snd e)) l.
 Proof. unfold drop_blacklists. induction l as [|[i p] l IH]; cbn; [reflexivity|]. rewrite IH. reflexivity. Qed.
 
-Lemma reimport_roles_characterised : forall s, roles_wf s ->
-  registry (reimport_roles s) = drop_blacklists (registry s) /\ infos (reimport_roles s) = infos s /\
-  next_role (reimport_roles s) = next_role s /\ (forall e, In e (windex (reimport_roles s)) <-> In e (windex s)).
+Lemma reimport_roles_characterised : forall blk s, roles_wf s ->
+  registry (reimport_roles blk s) = (if blk then registry s else drop_blacklists (registry s)) /\
+  infos (reimport_roles blk s) = infos s /\ next_role (reimport_roles blk s) = next_role s /\
+  (forall e, In e (windex (reimport_roles blk s)) <-> In e (windex s)).
 Proof.
-  intros s Hwf. pose proof (reimport_registry s Hwf) as Hr. split; [exact Hr|]. split; [reflexivity|]. split; [reflexivity|].
+  intros blk s Hwf. pose proof (reimport_registry blk s Hwf) as Hr. split; [exact Hr|]. split; [reflexivity|]. split; [reflexivity|].
   destruct Hwf as (_ & _ & _ & Hx). intro e. rewrite Hx.
-  change (windex (reimport_roles s)) with (flat_map (fun e => index_of_perms (fst e) (snd e)) (registry (reimport_roles s))).
-  rewrite Hr, index_drop_blacklists. tauto.
+  change (windex (reimport_roles blk s)) with (flat_map (fun e => index_of_perms (fst e) (snd e)) (registry (reimport_roles blk s))).
+  rewrite Hr. destruct blk; [tauto|]. rewrite index_drop_blacklists. tauto.
 Qed.
 
 Lemma drop_blacklists_id : forall l, (forall id p, In (id, p) l -> bl p = []) -> drop_blacklists l = l.
@@ -153,11 +192,18 @@ Proof.
   pose proof (H i p (or_introl eq_refl)) as Hb. destruct p as [w b]; cbn in *; subst. reflexivity.
 Qed.
 
+(* with the blacklist loop: the full round trip of the role state *)
+Lemma roundtrip_roles_with_blacklists : forall s, roles_wf s ->
+  registry (reimport_roles true s) = registry s /\ infos (reimport_roles true s) = infos s /\
+  next_role (reimport_roles true s) = next_role s /\ (forall e, In e (windex (reimport_roles true s)) <-> In e (windex s)).
+Proof. intros s Hwf. exact (reimport_roles_characterised true s Hwf). Qed.
+
+(* without it: only for states without role blacklists *)
 Lemma roundtrip_roles_partial : forall s, roles_wf s -> no_blacklists s ->
-  registry (reimport_roles s) = registry s /\ infos (reimport_roles s) = infos s /\
-  next_role (reimport_roles s) = next_role s /\ (forall e, In e (windex (reimport_roles s)) <-> In e (windex s)).
+  registry (reimport_roles false s) = registry s /\ infos (reimport_roles false s) = infos s /\
+  next_role (reimport_roles false s) = next_role s /\ (forall e, In e (windex (reimport_roles false s)) <-> In e (windex s)).
 Proof.
-  intros s Hwf Hnb. destruct (reimport_roles_characterised s Hwf) as (Hr & H2 & H3 & H4).
+  intros s Hwf Hnb. destruct (reimport_roles_characterised false s Hwf) as (Hr & H2 & H3 & H4).
   rewrite drop_blacklists_id in Hr by exact Hnb. auto.
 Qed.
 
@@ -166,16 +212,15 @@ Definition roles_witness : roles_state :=
   mkRoles [(3, mkPerms [10] [11]); (4, mkPerms [11] [])] [3; 4] [(10, 3); (11, 4)] 5.
 Lemma roles_witness_wf : roles_wf roles_witness.
 Proof.
-  unfold roles_wf; cbn. repeat split.
-  - repeat constructor; cbn; intuition discriminate.
-  - intros id p [E|[E|[]]]; inv E; repeat constructor; cbn; tauto.
-  - tauto.
-  - tauto.
+  unfold roles_wf. split; [reflexivity|]. split; [cbn; repeat constructor; cbn; intuition discriminate|]. split.
+  - intros id p H. cbn in H. destruct H as [E|[E|[]]]; inv E; cbn; (split; [|split]);
+      try (repeat constructor; cbn; tauto); intros x Hx Hb; cbn in *; intuition (subst; discriminate).
+  - intro e. cbn. tauto.
 Qed.
 Lemma roundtrip_roles_refuted :
-  exists s, roles_wf s /\ registry (reimport_roles s) <> registry s /\
+  exists s, roles_wf s /\ registry (reimport_roles false s) <> registry s /\
             (* an account holding roles 3 and 4 is denied permission 11 before and allowed after *)
-            role_allows s [3; 4] 11 = false /\ role_allows (reimport_roles s) [3; 4] 11 = true.
+            role_allows s [3; 4] 11 = false /\ role_allows (reimport_roles false s) [3; 4] 11 = true.
 Proof.
   exists roles_witness. split; [exact roles_witness_wf|]. split; [|split; vm_compute; reflexivity].
   vm_compute. intro H; discriminate.
@@ -247,20 +292,38 @@ Proof.
   destruct (i =? id) eqn:E; [apply Z.eqb_eq in E; inv H; auto|right; auto].
 Qed.
 
-Lemma NoDup_app_one : forall {A} (l : list A) x, NoDup l -> ~ In x l -> NoDup (l ++ [x]).
-Proof.
-  induction l as [|a l IH]; intros x Hn Hx; cbn; [constructor; [tauto|constructor]|].
-  inversion Hn as [|? ? Ha Hl]; subst. constructor.
-  - intro H. apply in_app_or in H as [H|[H|[]]]; [tauto|subst; apply Hx; left; reflexivity].
-  - apply IH; [assumption|]. intro H. apply Hx. right; assumption.
-Qed.
-
 Lemma nodup_zremove : forall x l, NoDup l -> NoDup (zremove x l).
 Proof. intros. unfold zremove. apply NoDup_filter. assumption. Qed.
+Lemma in_zremove : forall x y l, In y (zremove x l) -> In y l.
+Proof. intros x y l H. unfold zremove in H. apply filter_In in H. tauto. Qed.
 
 Lemma zpair_eqb_eq : forall a b, zpair_eqb a b = true <-> a = b.
 Proof.
   intros [a1 a2] [b1 b2]. unfold zpair_eqb; cbn. rewrite andb_true_iff, !Z.eqb_eq. split; [intros [-> ->]; reflexivity|intro H; inv H; auto].
+Qed.
+
+(* per-operation preservation of [perm_ok] *)
+Lemma perm_ok_empty : perm_ok empty_perms.
+Proof. unfold perm_ok; cbn. repeat split; try constructor. tauto. Qed.
+Lemma perm_ok_whitelist : forall p w, perm_ok p -> ~ In w (wl p) -> ~ In w (bl p) -> perm_ok (mkPerms (wl p ++ [w]) (bl p)).
+Proof.
+  intros p w (Hw & Hb & Hd) H1 H2. unfold perm_ok; cbn. repeat split; [apply NoDup_app_one; assumption|assumption|].
+  intros x Hx. apply in_app_or in Hx as [Hx|[<-|[]]]; [apply Hd; assumption|assumption].
+Qed.
+Lemma perm_ok_blacklist : forall p b, perm_ok p -> ~ In b (wl p) -> ~ In b (bl p) -> perm_ok (mkPerms (wl p) (bl p ++ [b])).
+Proof.
+  intros p b (Hw & Hb & Hd) H1 H2. unfold perm_ok; cbn. repeat split; [assumption|apply NoDup_app_one; assumption|].
+  intros x Hx Hin. apply in_app_or in Hin as [Hin|[<-|[]]]; [exact (Hd x Hx Hin)|contradiction].
+Qed.
+Lemma perm_ok_remove_wl : forall p w, perm_ok p -> perm_ok (mkPerms (zremove w (wl p)) (bl p)).
+Proof.
+  intros p w (Hw & Hb & Hd). unfold perm_ok; cbn. repeat split; [apply nodup_zremove; assumption|assumption|].
+  intros x Hx. apply Hd. eapply in_zremove; eassumption.
+Qed.
+Lemma perm_ok_remove_bl : forall p b, perm_ok p -> perm_ok (mkPerms (wl p) (zremove b (bl p))).
+Proof.
+  intros p b (Hw & Hb & Hd). unfold perm_ok; cbn. repeat split; [assumption|apply nodup_zremove; assumption|].
+  intros x Hx Hin. apply (Hd x Hx). eapply in_zremove; eassumption.
 Qed.
 
 (* index characterisation through membership *)
@@ -279,18 +342,29 @@ Proof.
   intros l id p q Hn Hp Hq. pose proof (lookup_perms_in _ _ _ Hn Hp). pose proof (lookup_perms_in _ _ _ Hn Hq). congruence.
 Qed.
 
+(* the permissions clause of [roles_wf] after an update of one role *)
+Lemma perms_clause_update : forall (l : list (Z * perms)) id p f,
+  NoDup (map fst l) -> (forall i q, In (i, q) l -> perm_ok q) -> In (id, p) l -> perm_ok (f p) ->
+  forall i q, In (i, q) (update_perms id f l) -> perm_ok q.
+Proof.
+  intros l id p f Hn Hw Hp Hf i q Hin. apply in_update_perms in Hin as [q0 [Hq0 ->]].
+  destruct (i =? id) eqn:E; [|eapply Hw; eassumption].
+  apply Z.eqb_eq in E; subst. assert (q0 = p) by (eapply unique_perms; eassumption). subst. assumption.
+Qed.
+
 Lemma role_step_inv : forall s o, roles_inv s -> roles_inv (role_step s o).
 Proof.
   intros s o [(Hi & Hn & Hw & Hx) Hlt].
-  assert (Hwf0 : roles_inv s) by (repeat split; auto; apply Hx).
+  assert (Hwf0 : roles_inv s) by (repeat split; auto; try apply Hx; try (eapply Hw; eassumption)).
+  assert (Hw' : forall i q, In (i, q) (registry s) -> perm_ok q) by (intros; eapply Hw; eassumption).
   destruct o as [|id w|id b|id w|id b]; cbn [role_step].
   - (* create *)
     destruct (existsb _ _) eqn:Ee; [exact Hwf0|].
-    split; [unfold roles_wf; cbn [registry infos windex next_role]; repeat split|].
+    split; [unfold roles_wf; cbn [registry infos windex next_role]; split; [|split; [|split; [|intro e; split]]]|].
     + rewrite map_app, Hi. reflexivity.
     + rewrite map_app. cbn. apply NoDup_app_one; [assumption|].
       intro Hin. apply in_map_iff in Hin as [[i p] [E Hin]]. cbn in E; subst. specialize (Hlt _ _ Hin). lia.
-    + intros id p Hin. apply in_app_or in Hin as [Hin|[E|[]]]; [eapply Hw; eassumption|inv E; constructor].
+    + intros id p Hin. apply in_app_or in Hin as [Hin|[E|[]]]; [eapply Hw; eassumption|inv E; exact perm_ok_empty].
     + intro H. destruct e as [w i]. apply Hx in H. apply in_index in H as [p [Hp Hwp]]. apply in_index. exists p. split; [apply in_or_app; auto|assumption].
     + intro H. destruct e as [w i]. apply in_index in H as [p [Hp Hwp]]. apply in_app_or in Hp as [Hp|[E|[]]].
       * apply Hx. apply in_index. eauto.
@@ -299,15 +373,12 @@ Proof.
   - (* whitelist *)
     destruct (lookup_perms id (registry s)) as [p|] eqn:El; [|exact Hwf0].
     destruct (zmem w (bl p) || zmem w (wl p))%bool eqn:Em; [exact Hwf0|].
-    apply orb_false_iff in Em as [_ Emw]. apply zmem_false in Emw.
+    apply orb_false_iff in Em as [Emb Emw]. apply zmem_false in Emw. apply zmem_false in Emb.
     pose proof (lookup_perms_some_in _ _ _ El) as Hp.
-    split; [unfold roles_wf; cbn [registry infos windex next_role]; repeat split|].
+    split; [unfold roles_wf; cbn [registry infos windex next_role]; split; [|split; [|split; [|intro e; split]]]|].
     + rewrite map_fst_update. assumption.
     + rewrite map_fst_update. assumption.
-    + intros i q Hin. apply in_update_perms in Hin as [q0 [Hq0 ->]].
-      destruct (i =? id) eqn:E; [|eapply Hw; eassumption].
-      apply Z.eqb_eq in E; subst. cbn. assert (q0 = p) by (eapply unique_perms; eassumption). subst.
-      apply NoDup_app_one; [eapply Hw; eassumption|assumption].
+    + eapply perms_clause_update; try eassumption. apply perm_ok_whitelist; auto; eapply Hw'; eassumption.
     + intro H. destruct e as [w' i]. apply in_index. destruct H as [E|H].
       * injection E as Ew Ei; subst w' i. exists (mkPerms (wl p ++ [w]) (bl p)). split; [|cbn; apply in_or_app; right; left; reflexivity].
         unfold update_perms. apply in_map_iff. exists (id, p). cbn. rewrite Z.eqb_refl. auto.
@@ -324,11 +395,12 @@ Proof.
   - (* blacklist *)
     destruct (lookup_perms id (registry s)) as [p|] eqn:El; [|exact Hwf0].
     destruct (zmem b (wl p) || zmem b (bl p))%bool eqn:Em; [exact Hwf0|].
-    split; [unfold roles_wf; cbn [registry infos windex next_role]; repeat split|].
+    apply orb_false_iff in Em as [Emw Emb]. apply zmem_false in Emw. apply zmem_false in Emb.
+    pose proof (lookup_perms_some_in _ _ _ El) as Hp.
+    split; [unfold roles_wf; cbn [registry infos windex next_role]; split; [|split; [|split; [|intro e; split]]]|].
     + rewrite map_fst_update. assumption.
     + rewrite map_fst_update. assumption.
-    + intros i q Hin. apply in_update_perms in Hin as [q0 [Hq0 ->]].
-      destruct (i =? id); [cbn|]; eapply Hw; eassumption.
+    + eapply perms_clause_update; try eassumption. apply perm_ok_blacklist; auto; eapply Hw'; eassumption.
     + intro H. destruct e as [w' i]. apply Hx in H. apply in_index in H as [q [Hq Hwq]]. apply in_index.
       exists (if i =? id then mkPerms (wl q) (bl q ++ [b]) else q). split.
       * unfold update_perms. apply in_map_iff. exists (i, q). cbn. destruct (i =? id); auto.
@@ -340,11 +412,10 @@ Proof.
     destruct (lookup_perms id (registry s)) as [p|] eqn:El; [|exact Hwf0].
     destruct (zmem w (wl p)) eqn:Em; [|exact Hwf0].
     pose proof (lookup_perms_some_in _ _ _ El) as Hp.
-    split; [unfold roles_wf; cbn [registry infos windex next_role]; repeat split|].
+    split; [unfold roles_wf; cbn [registry infos windex next_role]; split; [|split; [|split; [|intro e; split]]]|].
     + rewrite map_fst_update. assumption.
     + rewrite map_fst_update. assumption.
-    + intros i q Hin. apply in_update_perms in Hin as [q0 [Hq0 ->]].
-      destruct (i =? id); [cbn; apply nodup_zremove|]; eapply Hw; eassumption.
+    + eapply perms_clause_update; try eassumption. apply perm_ok_remove_wl; eapply Hw'; eassumption.
     + intro H. destruct e as [w' i]. apply filter_In in H as [H Hne]. apply Hx in H. apply in_index in H as [q [Hq Hwq]]. apply in_index.
       exists (if i =? id then mkPerms (zremove w (wl q)) (bl q) else q). split.
       * unfold update_perms. apply in_map_iff. exists (i, q). cbn. destruct (i =? id); auto.
@@ -364,11 +435,11 @@ Proof.
   - (* remove blacklist *)
     destruct (lookup_perms id (registry s)) as [p|] eqn:El; [|exact Hwf0].
     destruct (zmem b (bl p)) eqn:Em; [|exact Hwf0].
-    split; [unfold roles_wf; cbn [registry infos windex next_role]; repeat split|].
+    pose proof (lookup_perms_some_in _ _ _ El) as Hp.
+    split; [unfold roles_wf; cbn [registry infos windex next_role]; split; [|split; [|split; [|intro e; split]]]|].
     + rewrite map_fst_update. assumption.
     + rewrite map_fst_update. assumption.
-    + intros i q Hin. apply in_update_perms in Hin as [q0 [Hq0 ->]].
-      destruct (i =? id); [cbn|]; eapply Hw; eassumption.
+    + eapply perms_clause_update; try eassumption. apply perm_ok_remove_bl; eapply Hw'; eassumption.
     + intro H. destruct e as [w' i]. apply Hx in H. apply in_index in H as [q [Hq Hwq]]. apply in_index.
       exists (if i =? id then mkPerms (wl q) (zremove b (bl q)) else q). split.
       * unfold update_perms. apply in_map_iff. exists (i, q). cbn. destruct (i =? id); auto.
@@ -379,7 +450,7 @@ Proof.
 Qed.
 
 Lemma roles_init_inv : roles_inv roles_init.
-Proof. unfold roles_inv, roles_wf, roles_init; cbn. repeat split; try tauto; constructor. Qed.
+Proof. unfold roles_inv, roles_wf, roles_init; cbn. repeat split; try tauto; try constructor; contradiction. Qed.
 
 Lemma roles_run_inv : forall ops, roles_inv (roles_run ops).
 Proof.
@@ -387,43 +458,56 @@ Proof.
   induction ops as [|o ops IH]; intros s Hs; cbn; [assumption|]. apply IH. apply role_step_inv. assumption.
 Qed.
 
-(* every history of role operations, then export + re-import: exactly the blacklists are gone *)
-Lemma reimport_after_history : forall ops,
+(* every history of role operations, then export + re-import: without the blacklist loop exactly the
+   blacklists are gone, with it nothing is *)
+Lemma reimport_after_history : forall blk ops,
   let s := roles_run ops in
-  registry (reimport_roles s) = drop_blacklists (registry s) /\ infos (reimport_roles s) = infos s /\
-  next_role (reimport_roles s) = next_role s /\ (forall e, In e (windex (reimport_roles s)) <-> In e (windex s)).
-Proof. intros ops s. apply reimport_roles_characterised. apply roles_run_inv. Qed.
+  registry (reimport_roles blk s) = (if blk then registry s else drop_blacklists (registry s)) /\
+  infos (reimport_roles blk s) = infos s /\ next_role (reimport_roles blk s) = next_role s /\
+  (forall e, In e (windex (reimport_roles blk s)) <-> In e (windex s)).
+Proof. intros blk ops s. apply reimport_roles_characterised. apply roles_run_inv. Qed.
 
 Lemma roundtrip_after_history_refuted :
-  exists ops, registry (reimport_roles (roles_run ops)) <> registry (roles_run ops).
+  exists ops, registry (reimport_roles false (roles_run ops)) <> registry (roles_run ops).
 Proof. exists [OCreateRole; OBlacklistRole 1 7]. vm_compute. intro H; discriminate. Qed.
 
 (* ================================================================ 2b. proposals *)
 
-Lemma roundtrip_props_iff : forall s, reimport_props s = s <-> active_q s = [] /\ enact_q s = [].
+Lemma roundtrip_props_iff : forall now s, reimport_props false now s = s <-> active_q s = [] /\ enact_q s = [].
 Proof.
-  intros [ps a e n]; unfold reimport_props, import_props, export_props; cbn. split.
+  intros now [ps a e n]; unfold reimport_props, import_props, export_props; cbn. split.
   - intro H; inv H. auto.
   - intros [-> ->]. reflexivity.
 Qed.
 
-Lemma roundtrip_props_refuted : exists s, reimport_props s <> s.
-Proof. exists (mkProps [mkProp 1 Pending 600 900] [1] [] 2). intro H. apply roundtrip_props_iff in H as [H _]. discriminate. Qed.
+Lemma roundtrip_props_refuted : exists now s, reimport_props false now s <> s.
+Proof. exists 0, (mkProps [mkProp 1 Pending 600 900] [1] [] 2). intro H. apply roundtrip_props_iff in H as [H _]. discriminate. Qed.
 
 Lemma end_block_empty_queues : forall decide s t, active_q s = [] -> enact_q s = [] -> end_block decide s t = s.
 Proof. intros decide [ps a e n] t Ha He; cbn in *; subst. unfold end_block; cbn. reflexivity. Qed.
 
-(* after a re-import no block, at any time, ever changes a proposal again: a proposal exported while
-   in voting or in enactment stays Pending / Enactment for ever *)
-Lemma reimport_freezes_proposals : forall decide ts s, run_blocks decide (reimport_props s) ts = reimport_props s.
+(* after a re-import that does not rebuild the queues no block, at any time, ever changes a proposal
+   again: a proposal exported while in voting or in enactment stays Pending / Enactment for ever *)
+Lemma reimport_freezes_proposals : forall decide now ts s, run_blocks decide (reimport_props false now s) ts = reimport_props false now s.
 Proof.
-  intros decide ts s. unfold run_blocks. induction ts as [|t ts IH]; cbn; [reflexivity|].
+  intros decide now ts s. unfold run_blocks. induction ts as [|t ts IH]; cbn; [reflexivity|].
   rewrite end_block_empty_queues by reflexivity. exact IH.
+Qed.
+
+(* with the rebuild: proposals, counter and (as sets) both queues survive whenever the queues held
+   exactly the proposals in the respective phase *)
+Lemma roundtrip_props_with_rebuild : forall now s, queues_sound now s ->
+  proposals (reimport_props true now s) = proposals s /\ next_prop (reimport_props true now s) = next_prop s /\
+  (forall id, In id (active_q (reimport_props true now s)) <-> In id (active_q s)) /\
+  (forall id, In id (enact_q (reimport_props true now s)) <-> In id (enact_q s)).
+Proof.
+  intros now [ps a e n] [Ha He]. unfold reimport_props, import_props, export_props; cbn in *.
+  repeat split; try (intro H; apply Ha; assumption); try (intro H; apply He; assumption).
 Qed.
 
 (* ================================================================ 2c. multistaking *)
 
-Lemma roundtrip_ms_iff : forall s, reimport_ms s = s <-> last_pool s = 0 /\ last_undel s = 0 /\ delegators s = [] /\ compound s = [].
+Lemma roundtrip_ms_iff : forall s, reimport_ms false s = s <-> last_pool s = 0 /\ last_undel s = 0 /\ delegators s = [] /\ compound s = [].
 Proof.
   intros [lp lu ps us ds cs]; unfold reimport_ms, import_ms, export_ms; cbn. split.
   - intro H; inv H. auto.
@@ -434,6 +518,14 @@ Lemma zlookup_upsert_same : forall l k v, zlookup k (upsert k v l) = Some v.
 Proof.
   induction l as [|[k' v'] l IH]; intros k v; cbn; [rewrite Z.eqb_refl; reflexivity|].
   destruct (k' =? k) eqn:E; cbn; rewrite ?Z.eqb_refl, ?E; auto.
+Qed.
+Lemma zlookup_upsert_other : forall l k v k', k' <> k -> zlookup k' (upsert k v l) = zlookup k' l.
+Proof.
+  induction l as [|[k0 v0] l IH]; intros k v k' Hne; cbn.
+  - destruct (Z.eqb_spec k k'); [congruence|reflexivity].
+  - destruct (Z.eqb_spec k0 k) as [->|Hk]; cbn.
+    + destruct (Z.eqb_spec k k'); [congruence|reflexivity].
+    + destruct (Z.eqb_spec k0 k'); [reflexivity|]. apply IH; assumption.
 Qed.
 Lemma length_upsert_present : forall l k v o, zlookup k l = Some o -> List.length (upsert k v l) = List.length l.
 Proof.
@@ -446,15 +538,47 @@ Proof.
   destruct (k' =? k) eqn:E; [discriminate|]. cbn. f_equal. apply IH; assumption.
 Qed.
 
-(* the first undelegation after a re-import reuses id 1 and overwrites the restored record: the old
-   owner's pending undelegation disappears, no new record is added *)
+(* without the counters: the first undelegation after a re-import reuses id 1 and overwrites the
+   restored record: the old owner's pending undelegation disappears, no new record is added *)
 Lemma reimport_undelegation_overwrites : forall s o o',
   zlookup 1 (undels s) = Some o ->
-  let s' := undelegate (reimport_ms s) o' in
+  let s' := undelegate (reimport_ms false s) o' in
   last_undel s' = 1 /\ zlookup 1 (undels s') = Some o' /\ List.length (undels s') = List.length (undels s).
 Proof.
   intros s o o' H. cbn. split; [reflexivity|]. split; [apply zlookup_upsert_same|].
   eapply length_upsert_present; eassumption.
+Qed.
+
+(* with the counters re-derived from the highest imported id: every restored undelegation survives the
+   next undelegation, which adds a fresh record -- for EVERY state, no reachability condition needed *)
+Lemma zlookup_le_max : forall l k v, zlookup k l = Some v -> k <= zmax_list (map fst l).
+Proof.
+  induction l as [|[k' v'] l IH]; intros k v H; [discriminate|].
+  change (zmax_list (map fst ((k', v') :: l))) with (Z.max k' (zmax_list (map fst l))).
+  cbn [zlookup] in H. destruct (Z.eqb_spec k' k) as [->|Hne]; [lia|]. specialize (IH _ _ H). lia.
+Qed.
+Lemma zmax_list_nonneg : forall l, 0 <= zmax_list l.
+Proof. induction l as [|a l IH]; [cbn; lia|]. change (zmax_list (a :: l)) with (Z.max a (zmax_list l)). lia. Qed.
+Lemma in_le_zmax : forall l x, In x l -> x <= zmax_list l.
+Proof.
+  induction l as [|a l IH]; intros x Hx; [contradiction|].
+  change (zmax_list (a :: l)) with (Z.max a (zmax_list l)). destruct Hx as [->|Hx]; [lia|]. specialize (IH _ Hx). lia.
+Qed.
+Lemma reimport_with_counters_preserves_undelegations : forall s o',
+  let s' := undelegate (reimport_ms true s) o' in
+  (forall id o, zlookup id (undels s) = Some o -> zlookup id (undels s') = Some o) /\
+  List.length (undels s') = S (List.length (undels s)).
+Proof.
+  intros s o'. cbv zeta. unfold undelegate, reimport_ms, import_ms, export_ms. cbn [undels last_undel last_pool pools fst snd]. split.
+  - intros id o H. rewrite zlookup_upsert_other; [assumption|]. apply zlookup_le_max in H. lia.
+  - apply length_upsert_absent. destruct (zlookup (zmax_list (map fst (undels s)) + 1) (undels s)) eqn:E; [|reflexivity].
+    apply zlookup_le_max in E. lia.
+Qed.
+(* and the next pool gets an id no imported pool has *)
+Lemma reimport_with_counters_fresh_pool_id : forall s v,
+  let s' := new_pool (reimport_ms true s) v in ~ In (last_pool s') (map fst (pools s)).
+Proof.
+  intros s v. cbv zeta. unfold new_pool, reimport_ms, import_ms, export_ms. cbn [undels last_undel last_pool pools fst snd]. intro H. apply in_le_zmax in H. lia.
 Qed.
 
 (* on the original chain (ids never exceed the counter) the same message adds a fresh record *)
@@ -466,18 +590,90 @@ Qed.
 Lemma original_undelegation_adds : forall s o', ms_wf s -> List.length (undels (undelegate s o')) = S (List.length (undels s)).
 Proof. intros s o' H. cbn. apply length_upsert_absent. apply zlookup_none_of_wf; assumption. Qed.
 
-(* the first pool created after a re-import takes id 1 again: two pools share the share denom v1/... *)
+(* without the counters the first pool created after a re-import takes id 1 again: two pools share the share denom v1/... *)
 Lemma reimport_pool_id_collision : forall s v v',
-  In (1, v) (pools s) -> let s' := new_pool (reimport_ms s) v' in In (1, v) (pools s') /\ In (1, v') (pools s').
+  In (1, v) (pools s) -> let s' := new_pool (reimport_ms false s) v' in In (1, v) (pools s') /\ In (1, v') (pools s').
 Proof. intros s v v' H. cbn. split; apply in_or_app; [left; assumption|right; left; reflexivity]. Qed.
 
-Lemma roundtrip_ms_refuted : exists s, ms_wf s /\ reimport_ms s <> s.
+Lemma roundtrip_ms_refuted : exists s, ms_wf s /\ reimport_ms false s <> s.
 Proof.
   exists (mkMsState 1 1 [(1, 100)] [(1, 7)] [(1, 7)] []). split.
   - intros id o H. cbn [undels last_undel] in *. change (zlookup id [(1, 7)]) with (if 1 =? id then Some 7 else None) in H.
     destruct (Z.eqb_spec 1 id); [lia|discriminate].
   - intro H. apply roundtrip_ms_iff in H as [H _]. discriminate.
 Qed.
+
+(* ================================================================ 2f. identity registrar *)
+
+Lemma upsert_fresh : forall l k v, ~ In k (map fst l) -> upsert k v l = (l ++ [(k, v)])%list.
+Proof.
+  induction l as [|[k' v'] l IH]; intros k v H; cbn; [reflexivity|].
+  destruct (Z.eqb_spec k' k) as [->|Hne]; [exfalso; apply H; left; reflexivity|].
+  rewrite IH; [reflexivity|]. intro Hin. apply H. right; assumption.
+Qed.
+
+Lemma fold_set_record : forall l a b, NoDup (map fst a ++ map fst l)%list -> NoDup (map fst b ++ map snd l)%list ->
+  fold_left set_record l (a, b) = ((a ++ l)%list, (b ++ map swap_pair l)%list).
+Proof.
+  induction l as [|[i k] l IH]; intros a b Ha Hb; cbn [fold_left map].
+  - rewrite !app_nil_r. reflexivity.
+  - unfold set_record at 2. cbn [fst snd].
+    assert (Hi : ~ In i (map fst a)).
+    { cbn in Ha. apply NoDup_remove_2 in Ha. intro H. apply Ha. apply in_or_app; left; assumption. }
+    assert (Hk : ~ In k (map fst b)).
+    { cbn in Hb. apply NoDup_remove_2 in Hb. intro H. apply Hb. apply in_or_app; left; assumption. }
+    rewrite (upsert_fresh a i k Hi), (upsert_fresh b k i Hk).
+    rewrite IH.
+    + rewrite <- !app_assoc. reflexivity.
+    + rewrite map_app, <- app_assoc. exact Ha.
+    + rewrite map_app, <- app_assoc. exact Hb.
+Qed.
+
+(* the identity registrar round-trips: records, counter, and the by-address index (as a set) *)
+Lemma roundtrip_id : forall s, id_wf s ->
+  id_records (reimport_id s) = id_records s /\ id_last (reimport_id s) = id_last s /\
+  (forall e, In e (id_index (reimport_id s)) <-> In e (id_index s)).
+Proof.
+  intros s (Hn & Hk & Hx). unfold reimport_id, import_id, export_id. cbn [fst snd].
+  rewrite fold_set_record by (cbn; assumption). cbn [fst snd id_records id_last id_index app].
+  repeat split; try reflexivity; intro H; apply Hx; assumption.
+Qed.
+
+(* the hypothesis is needed: a dangling index entry (as DeleteIdentityRecordById left before 9fe909f)
+   is not rebuilt *)
+Lemma roundtrip_id_needs_wf :
+  exists s, ~ (forall e, In e (id_index (reimport_id s)) <-> In e (id_index s)).
+Proof.
+  exists (mkId [(2, 17)] [(17, 2); (11, 1)] 2). intro H. specialize (H (11, 1)). cbn in H.
+  destruct H as [_ H]. destruct (H (or_intror (or_introl eq_refl))) as [E|[]]. discriminate.
+Qed.
+
+(* ================================================================ 2g. distributor *)
+
+Lemma vote_mem_spec : forall v l, vote_mem v l = true <-> In v l.
+Proof.
+  intros [a b] l. unfold vote_mem. rewrite existsb_exists. split.
+  - intros [[c d] [Hin E]]. cbn in E. apply andb_true_iff in E as [E1 E2]. apply Z.eqb_eq in E1, E2. subst. assumption.
+  - intro H. exists (a, b). split; [assumption|]. cbn. rewrite !Z.eqb_refl. reflexivity.
+Qed.
+
+Lemma fold_set_vote : forall l acc, NoDup (acc ++ l)%list -> fold_left set_vote l acc = (acc ++ l)%list.
+Proof.
+  induction l as [|v l IH]; intros acc Hn; cbn [fold_left]; [rewrite app_nil_r; reflexivity|].
+  unfold set_vote at 2. destruct (vote_mem v acc) eqn:E.
+  - apply vote_mem_spec in E. exfalso. apply NoDup_remove_2 in Hn. apply Hn. apply in_or_app; left; assumption.
+  - rewrite IH; [rewrite <- app_assoc; reflexivity|]. rewrite <- app_assoc. exact Hn.
+Qed.
+
+(* once a block has run (previous proposer recorded) the distributor state round-trips exactly *)
+Lemma roundtrip_distr : forall s p, d_proposer s = Some p -> NoDup (d_votes s) -> reimport_distr s = Ok s.
+Proof.
+  intros [t sp vs pr y pe] p Hp Hn. cbn in *. subst. unfold reimport_distr, export_distr, import_distr. cbn.
+  rewrite fold_set_vote by (cbn; assumption). reflexivity.
+Qed.
+(* before the first block the export itself panics *)
+Lemma distr_export_before_first_block : forall s, d_proposer s = None -> reimport_distr s = Panic "previous proposer not set".
+Proof. intros s H. unfold reimport_distr, export_distr. rewrite H. reflexivity. Qed.
 
 (* ================================================================ 2d. staking *)
 
@@ -513,7 +709,7 @@ Qed.
 
 (* ================================================================ 3. the checker accepts model runs *)
 
-Definition snap0 : snap := mkSnap [] [] [] 1 [] [] [] 1 (mkMs 0 0 [] [] 0 0).
+Definition snap0 : snap := mkSnap [] [] [] 1 [] [] [] 1 (mkMs 0 0 [] [] 0 0) [] [] 0 0 0 [] 0.
 Definition model_case (pop : list (string * string)) : c12_case :=
   mkCase RImported false pop (predicted_diffs pop) [] [] snap0 snap0.
 
